@@ -77,7 +77,7 @@ C13(r) ==
   IF r.err # "" THEN [no_exception |-> FALSE] ELSE
   [ no_exception    |-> TRUE,
     in_domain       |-> AllRanks(r, LAMBDA rk : WellFormedRows(RowsOf(rk))),
-    input_faithful  |-> AllRanks(r, LAMBDA rk : RowsFaithful(RowsOf(rk), Range(rk.file))),
+    input_faithful  |-> AllRanks(r, LAMBDA rk : RowsFaithful(RowsOf(rk), Range(rk.file)) /\ LinksFaithful(RowsOf(rk), Range(rk.file))),
     device_parent   |-> AllRanks(r, LAMBDA rk : DeviceParentOK(RowsOf(rk))),
     host_parent     |-> AllRanks(r, LAMBDA rk : HostParentsOK(RowsOf(rk))),
     depth           |-> AllRanks(r, LAMBDA rk : DepthAgrees(RowsOf(rk))),
@@ -101,7 +101,7 @@ C16(r) ==
   IN
   [ no_exception |-> TRUE,
     in_domain    |-> WellFormedRows(R) /\ DistinctStarts(R, r.minLen),
-    input_faithful |-> RowsFaithful(R, Range(r.file)),
+    input_faithful |-> RowsFaithful(R, Range(r.file)) /\ LinksFaithful(R, Range(r.file)),
     \* the call tree the sequences are read from (C13): device activities hang beneath the call that launched them, host events beneath
     \* their innermost enclosing host event
     input_tree   |-> DeviceParentOK(R) /\ HostParentsOK(R),
